@@ -1309,15 +1309,18 @@ class KVDef(EntAttribute):
                         file.write('\n')
             elif self._type is ValueTypes.CHOICES:
                 for value, name, tags in self.choices_list:
-                    # Numbers can be unquoted, everything else cannot.
-                    try:
-                        float(value)
-                    except ValueError:
-                        value = f'"{value}"'
+                    # Plain numbers can be unquoted, everything else cannot.
+                    digits = value[1:] if value.startswith('-') else value
+                    whole, point, frac = digits.partition('.')
+                    if not (
+                        whole.isascii() and whole.isdecimal()
+                        and (frac.isascii() and frac.isdecimal() if point else True)
+                    ):
+                        value = f'"{_fgd_escape(custom_syntax, value)}"'
 
                     file.write(f'\t\t{value}: ')
                     # Newlines aren't functional here, just replace.
-                    _write_longstring(file, False, name.replace('\n', ' '), indent='\t\t')
+                    _write_longstring(file, custom_syntax, name.replace('\n', ' '), indent='\t\t')
                     if tags and custom_syntax:
                         file.write(f' [{", ".join(sorted(tags))}]\n')
                     else:
